@@ -351,6 +351,7 @@ def run(P, R, L):
     K.grd21_manifest_cleanup(P, R, L)
     R.clause("OWN-12", "release_version unlinks exactly the version node it was given")
     K.own12_release_unlinks_that_version(P, R, L)
+    K.fs2_disk_operations_are_their_namesakes(P, R, L)
     R.clause("LIST-1", "a walk over the version list starts at its head and follows the next links: get_live_files sees the files of every linked version")
     K.list1_iteration_covers_the_list(P, R, L)
     R.clause("GRD-24", "a declined manifest re-use leaves manifest_file_number alone (it names the manifest that is kept and that CURRENT points at)")
